@@ -8,6 +8,7 @@ from amc.ref.bv import Unknown, mask
 from amc.gen import exprs as X
 
 _MAPPERS = {}
+RAW_MAXOPS = 1
 
 
 def aux_val(va, vb, w):
@@ -131,6 +132,8 @@ def flags(t):
 
 def rootsig(t):
     k = t[0]
+    if k == "m":
+        return "memslice(%s,%s)" % ("le" if t[2] == 1 else "be", "aligned" if (t[3] % 8 == 0 and t[4] % 8 == 0) else ("len8" if (t[4] - t[3]) % 8 == 0 else "bits"))
     if k in ("b", "s", "n"):
         return "%s%s(%s,%s)%s" % ({"b": "", "s": "s", "n": "u"}[k], t[1], kind(t[2]), kind(t[3]), ("{" + flags(t) + "}") if flags(t) else "")
     if k == "u":
@@ -297,6 +300,47 @@ class TreeChecker(object):
                     self.fail("C01", t, name, "value", "%s of %s gives %s = %#x under a=%d b=%d, reference %#x" % (
                         name, json.dumps(t), s, wv, va, vb, rv), (va, vb))
                     break
+        # ---- raw construction (no simplification at build time) + each simplify option set
+        if X.nops(t) <= RAW_MAXOPS:
+            for name, opts in SIMP_OPTS:
+                try:
+                    e3 = X.build_raw(t)
+                    if e3.size != w:
+                        self.fail("C12", t, "raw-build", "size", "raw node %s has size %s expected %d" % (e3, e3.size, w))
+                        break
+                    s3 = e3.simplify(**opts)
+                except ZeroDivisionError:
+                    continue
+                except Exception as ex:
+                    self.fail("C01", t, "raw-" + name, "exc:%s@%s" % exc_sig(ex), "raw node of %s: %s raised %r" % (json.dumps(t), name, ex))
+                    continue
+                st["width_obs"] += 1
+                if s3.size != w:
+                    self.fail("C12", t, "raw-" + name, "size", "%s of the raw node of %s = %s has size %s expected %d" % (name, json.dumps(t), s3, s3.size, w))
+                    continue
+                try:
+                    msg = bv.comps_ok(s3)
+                except Exception as ex:
+                    msg = "comps_ok raised %r" % ex
+                if msg:
+                    self.fail("C12", t, "raw-" + name, "tiling", "%s of raw %s: %s" % (name, json.dumps(t), msg))
+                if render(s3) == rb:
+                    continue
+                for (va, vb) in vals:
+                    val = valuation(W, va, vb, self.widths)
+                    try:
+                        rvs = ref_values(t, val)
+                        st["walks"] += 1
+                        wv = bv.walk(s3, bv.Env(val))
+                    except Unknown:
+                        continue
+                    except Exception as ex:
+                        self.fail("C12", t, "raw-" + name, "walk-exc:%s" % type(ex).__name__, "walking %s: %r" % (s3, ex), (va, vb))
+                        break
+                    if wv not in rvs:
+                        self.fail("C01", t, "raw-" + name, "value", "%s of the raw (unsimplified) node of %s gives %s = %#x under a=%d b=%d, reference %#x" % (
+                            name, json.dumps(t), s3, wv, va, vb, rvs[0]), (va, vb))
+                        break
         # ---- C12 under partial and symbolic environments, slicing
         for pname, m in (("eval-partial", mapper_for(W, vals[0][0] if vals else 0, 0, self.widths, partial=True)),):
             try:
@@ -332,7 +376,8 @@ class TreeChecker(object):
 
 
 def run_chunk(args):
-    W, widths, threshold, trees = args
+    global RAW_MAXOPS
+    W, widths, threshold, trees, RAW_MAXOPS = args
     from amoco.config import conf
     conf.Cas.complexity = threshold
     tc = TreeChecker(W, widths, threshold)
@@ -385,6 +430,52 @@ def trees_of(W, n, full, opsel):
     return out
 
 
+def memslice_unit(args):
+    """every bit slice of a symbolic memory cell, both endiannesses: width (C12) and value (C01)"""
+    size, E_ = args
+    from amoco.cas import expressions as E
+    from amoco.cas.mapper import mapper
+    out = []
+    n = 0
+    nbytes = size // 8
+    membytes = bytes(((i * 37 + 0x91) & 0xFF) for i in range(nbytes + 2))
+    word = int.from_bytes(membytes[:nbytes], "little" if E_ == 1 else "big")
+    m = mapper()
+    p = E.reg("p", 32)
+    m[p] = E.cst(0x1000, 32)
+    m.mmap.write(0x1000, membytes)
+    for i in range(size):
+        for j in range(i + 1, size + 1):
+            n += 1
+            t = ["m", size, E_, i, j]
+            case = {"tree": t, "W": size, "threshold": 0, "route": "memslice"}
+            try:
+                e = E.mem(p, size, endian=E_)[i:j]
+            except Exception as ex:
+                out.append({"pid": "C12", "tree": json.dumps(t), "route": "memslice", "mode": "exc:%s@%s" % exc_sig(ex),
+                            "what": "mem(p,%d,endian=%d)[%d:%d] raised %r" % (size, E_, i, j, ex), "case": case, "nops": 1})
+                continue
+            if e.size != j - i:
+                out.append({"pid": "C12", "tree": json.dumps(t), "route": "memslice", "mode": "size",
+                            "what": "mem(p,%d,endian=%d)[%d:%d] = %s has size %d" % (size, E_, i, j, e, e.size), "case": case, "nops": 1})
+                continue
+            try:
+                r = m(e)
+                s2 = e.simplify()
+            except Exception as ex:
+                out.append({"pid": "C01", "tree": json.dumps(t), "route": "memslice", "mode": "exc:%s@%s" % exc_sig(ex),
+                            "what": "evaluating mem(p,%d,endian=%d)[%d:%d] raised %r" % (size, E_, i, j, ex), "case": case, "nops": 1})
+                continue
+            if r.size != j - i or s2.size != j - i:
+                out.append({"pid": "C12", "tree": json.dumps(t), "route": "memslice-eval", "mode": "size",
+                            "what": "m(mem(p,%d,endian=%d)[%d:%d]) has size %d / simplify %d" % (size, E_, i, j, r.size, s2.size), "case": case, "nops": 1})
+            elif type(r).__name__ == "cst" and r.v != (word >> i) & mask(j - i):
+                out.append({"pid": "C01", "tree": json.dumps(t), "route": "memslice-eval", "mode": "value",
+                            "what": "m(mem(p,%d,endian=%d)[%d:%d]) = %#x, bits %d..%d of the stored word are %#x" % (size, E_, i, j, r.v, i, j, (word >> i) & mask(j - i)),
+                            "case": case, "nops": 1})
+    return n, out
+
+
 def run_pass(tier, seed):
     """returns (failures by pid {pid: [dict]}, stats, planinfo, samples)"""
     allf = []
@@ -397,7 +488,7 @@ def run_pass(tier, seed):
         trees = core.rotate(trees, seed)
         nchunks = max(1, min(len(trees) // 200, core.NPROC * 8))
         chunks = [trees[i::nchunks] for i in range(nchunks)]
-        res = core.pmap(run_chunk, [(W, widths, thr, c) for c in chunks if c])
+        res = core.pmap(run_chunk, [(W, widths, thr, c, 1 if tier == "quick" else 2) for c in chunks if c])
         ps = {}
         for st, out in res:
             for k, v in st.items():
@@ -408,6 +499,16 @@ def run_pass(tier, seed):
                          "evals": ps.get("evals", 0), "const_results": ps.get("const_results", 0)})
         if trees:
             samples.append({"plan": label, "tree": trees[len(trees) // 2]})
+    sizes = (16, 32) if tier == "quick" else (8, 16, 24, 32, 64)
+    res = core.pmap(memslice_unit, [(sz, e_) for sz in sizes for e_ in (1, -1)])
+    nms = 0
+    for n, out in res:
+        nms += n
+        allf.extend(out)
+    tot["trees"] = tot.get("trees", 0) + nms
+    tot["width_obs"] = tot.get("width_obs", 0) + nms
+    tot["evals"] = tot.get("evals", 0) + nms
+    planinfo.append({"plan": "memory-cell-slices", "sizes": list(sizes), "slices": nms})
     return allf, tot, planinfo, samples
 
 
@@ -423,7 +524,7 @@ def to_failures(allf, pid):
         if any(json.dumps(s) in failing for s in X.proper_subtrees(t)):
             shadowed += 1
             continue
-        route = "simplify" if f["route"].startswith("simplify") else f["route"]
+        route = "simplify" if f["route"].startswith("simplify") else ("raw-simplify" if f["route"].startswith("raw-") else f["route"])
         sig = (route, rootsig(t), f["mode"])
         out.append(Failure(sig, f["what"], f["case"], rank=f["nops"] * 1000 + len(f["tree"])))
     return out, shadowed
